@@ -1,8 +1,11 @@
 """Suite `headercache` (C11, header-proof part): the REAL code path of a `blockchain.block.header(h, cp)`
-proof -- `ElectrumX._merkle_proof` (range check) -> `DB.header_branch_and_root` ->
-`MerkleCache.branch_and_root / _extend_to / _level_for` -> `DB.fs_block_hashes` -> `DB.read_headers`
--- with any number of requests in flight, against `EV.HeaderCache` (`evdrv headercache`), and the REAL
-code path of a back-out -- `BlockProcessor.reorg_chain` -> (worker thread) `BlockProcessor.backup_block`
+/ `blockchain.block.headers(start, count, cp)` request, the WHOLE handler -- `ElectrumX.block_header` ->
+`SessionManager.raw_header` -> `DB.raw_header` -> `DB.read_headers` (resp. `ElectrumX.block_headers` ->
+`DB.read_headers`), then `ElectrumX._merkle_proof` (range check) -> `DB.header_branch_and_root` ->
+`MerkleCache.branch_and_root / _extend_to / _level_for` -> `DB.fs_block_hashes` -> `DB.read_headers`, then
+whatever the handler does with header and proof (finding F24: the consistency check of the reply and the
+re-read) -- with any number of requests in flight, against `EV.HeaderCache` (`evdrv headercache`), and the
+REAL code path of a back-out -- `BlockProcessor.reorg_chain` -> (worker thread) `BlockProcessor.backup_block`
 -> `DB.flush_backup` -> ... and wherever the current source truncates `DB.header_mc`.
 
 What is real: the coroutine code of all of the above (the unmodified functions of the classes in
@@ -29,15 +32,28 @@ coinbase-like transaction, header = the previous hash), the hash function (free 
 in suite `merkle`), and `append` (headers written, then `DB.state` raised -- the order of
 `flush_dbs`, read off the source).
 
+Events: `HD h cp` / `HS start count cp` start a handler (it runs to its first await, the read of the
+header(s)); `PF i` a worker thread performs request i's pending read now; `DL i` the result is delivered
+and the coroutine runs to its next await; `ST cp h` = `HD h cp, PF i, DL i` for the new request i with
+nothing in between (the request is at the range check of `_merkle_proof` at once); `BB n`, `BE`, `AP`.
+
 corr    after every event the canonical state line (cache length + level, truncation counter,
-        visible length + half-done back-out, every request's wait point / pending read / result)
-        must equal the model's, for the model variant `Cfg.fixed` with the measured `lowerFirst`.
+        visible length + half-done back-out, every request's wait point / pending read / result --
+        the WHOLE reply: headers, branch, root) must equal the model's, for the model variant
+        `Cfg.fixed` with the measured `lowerFirst`.
 direct  judged on the real objects with a plain-Python merkle tree, independently of the model:
-        (safety) every answer equals the from-scratch branch and root of `S[:cp+1]` at `height` for
-        some value `S` of the visible block hashes between the request's start and its answer with
-        `cp < len(S)`; (refusal) a request with `cp` beyond the visible chain at its start is
-        refused; (cache) whenever no back-out is half done the cache is the level of the visible
-        hashes, and in the half-done window it is the level of the chain before the back-out.
+        (safety) every answer's (branch, root) equals the from-scratch branch and root of `S[:cp+1]`
+        at the proven height for some value `S` of the visible block hashes between the request's
+        start and its answer with `cp < len(S)`; (whole reply, F24) for ONE such `S` also the headers
+        of the reply are `S[first : first+n]`, the proven height is `first+n-1`, and the last header
+        folds along the branch to the root (an independent fold); a reply without proof consists of
+        the headers one visible chain had at `[first, first+count)`; (refusal) a request whose
+        checkpoint is beyond the visible chain at the range check (the delivery of its header read),
+        or below its height, or whose height has no header, is refused; (progress,
+        C11_header_progress) a request whose reads are performed and delivered SOLO_ROUNDS times in a
+        row with nothing else in between and no back-out half done has ended; (cache) whenever no
+        back-out is half done the cache is the level of the visible hashes, and in the half-done
+        window it is the level of the chain before the back-out.
 preempt the model's steps are atomic; the code's are only if no other thread can run between two
         bytecodes of a step that touches the cache.  The probe (`preemption_probe`) tests that on the
         current source, in both directions, with `sys.settrace` line stops: (T) the second thread is
@@ -59,6 +75,11 @@ from harness.common import SuiteResult, rng_for, run_evdrv, ddmin
 
 HDR = 80
 UNSAFE_CLAUSE = 'header proof does not verify against any chain current during the request'
+REPLY_CLAUSE = 'header reply (header + proof) verifies against no chain current during the request'
+PLAIN_CLAUSE = 'headers returned are not those of any chain current during the request'
+REFUSAL_CLAUSE = 'request outside the chain not refused'
+PROGRESS_CLAUSE = 'request not answered although it ran alone, with no back-out, for 16 read round trips'
+SOLO_ROUNDS = 16      # C11_header_progress: 4 for a fresh request; <= 12 for one that was overtaken by reorganisations
 CACHE_CLAUSE = 'header cache inconsistent with the chain'
 
 
@@ -85,6 +106,15 @@ def plain_branch_root(hs, index):
         index >>= 1
         hs = [term(hs[i] + hs[i + 1]) for i in range(0, len(hs), 2)]
     return branch, hs[0]
+
+
+def plain_fold(leaf, branch, index):
+    """what a client does with a header proof: -> (root, index left over)"""
+    h = leaf
+    for elt in branch:
+        h = term(elt + h) if index & 1 else term(h + elt)
+        index >>= 1
+    return h, index
 
 
 def plain_level(hs, dh):
@@ -299,7 +329,7 @@ def classes():
     import electrumx.server.block_processor as bpmod
     from electrumx.lib.merkle import Merkle, MerkleCache
     from electrumx.lib.hash import hex_str_to_hash
-    from electrumx.server.session import ElectrumX
+    from electrumx.server.session import ElectrumX, SessionManager
     from aiorpcx import RPCError
 
     class StubDB(dbmod.DB):
@@ -321,6 +351,21 @@ def classes():
                 return MerkleCache.truncate(self, length)
             finally:
                 effect('truncate', length)
+
+    class StubSession(ElectrumX):
+        """The real ElectrumX session class (handlers `block_header`, `block_headers`, `_merkle_proof`);
+        only construction is bypassed and the cost is recorded instead of throttling."""
+
+        def __init__(self, db):
+            self.db = db
+            self.coin = db.coin
+            mgr = types.SimpleNamespace(db=db)
+            mgr.raw_header = types.MethodType(SessionManager.raw_header, mgr)   # the real method
+            self.session_mgr = mgr
+            self.costs = []
+
+        def bump_cost(self, delta):
+            self.costs.append(delta)
 
     class StubBP(bpmod.BlockProcessor):
         """The real BlockProcessor; construction is bypassed and `run_with_lock` does not lock or shield
@@ -347,6 +392,7 @@ def classes():
     cache_codes = {f.__code__ for f in vars(MerkleCache).values() if hasattr(f, '__code__')}
     _cls.update(dbmod=dbmod, bpmod=bpmod, Merkle=Merkle, MerkleCache=MerkleCache, ElectrumX=ElectrumX,
                 RPCError=RPCError, StubDB=StubDB, HookedCache=HookedCache, StubBP=StubBP, StubODB=StubODB,
+                StubSession=StubSession,
                 cache_codes=cache_codes)
     return _cls
 
@@ -485,9 +531,9 @@ class Real:
         mc.depth_higher = dh
         mc.level = db.merkle.level(list(src[:n]), dh)
         mc.initialized.set()
-        self.session = types.SimpleNamespace(db=db)
+        self.session = c['StubSession'](db)
         self.bp = None
-        self.reqs = []            # dicts: coro, susp, result, cp, height, h0
+        self.reqs = []            # dicts: coro, susp, result, kind, first, count, cp, h0
         self.pending = None       # half-done back-out target (number of hashes kept)
         self.before = None        # the visible hashes before the half-done back-out
         self.backout = None       # the Backout in progress
@@ -496,6 +542,7 @@ class Real:
         self.hist = [self.visible()]
         self.mlines = []          # per event: the model's lines for it
         self.last_effects = None
+        self.solo = [None, 0, False]   # request index, its consecutive read round trips, a PF pending its DL
         self.violations = []      # (clause, detail) found by the direct oracle
 
     # -- observation
@@ -545,8 +592,18 @@ class Real:
         except StopIteration as e:
             r['susp'] = None
             d = e.value
-            br = [bytes.fromhex(x)[::-1] for x in d['branch']]
-            r['result'] = ('A', br, bytes.fromhex(d['root'])[::-1])
+            if isinstance(d, str):                                  # block_header without a proof
+                r['result'] = ('P', [bytes.fromhex(d).rstrip(b'\0')])
+            else:
+                raw = bytes.fromhex(d['header'] if 'header' in d else d['hex'])
+                hdrs = [raw[i:i + HDR].rstrip(b'\0') for i in range(0, len(raw), HDR)]
+                if 'hex' in d and d['count'] != len(hdrs):
+                    self.violations.append(('headers count', f'count {d["count"]} with {len(hdrs)} headers'))
+                if 'branch' in d or 'root' in d:
+                    br = [bytes.fromhex(x)[::-1] for x in d['branch']]
+                    r['result'] = ('A', hdrs, br, bytes.fromhex(d['root'])[::-1])
+                else:
+                    r['result'] = ('P', hdrs)
             self._judge_answer(r)
         except self.RPCError:
             r['susp'], r['result'] = None, ('R',)
@@ -555,41 +612,139 @@ class Real:
         except (ValueError, TypeError, IndexError) as e:
             r['susp'], r['result'] = None, ('X', type(e).__name__)
 
+    def _what(self, r):
+        i = self.reqs.index(r)
+        if r['kind'] == 'header':
+            return f'request #{i} block.header({r["first"]}, cp={r["cp"]})'
+        return f'request #{i} block.headers({r["first"]}, {r["count"]}, cp={r["cp"]})'
+
     def _judge_answer(self, r):
-        _, br, root = r['result']
-        length, index = r['cp'] + 1, r['height']
-        for S in self.hist[r['h0']:]:
-            if length <= len(S) and plain_branch_root(S[:length], index) == (br, root):
-                return
-        self.violations.append((UNSAFE_CLAUSE,
-                                f'request #{self.reqs.index(r)} block.header({index}, cp={r["cp"]}) answered root '
-                                f'{root.decode()}; chains visible during the request: '
-                                + ' / '.join(','.join(x.decode() for x in S) for S in self.hist[r['h0']:])))
+        """the theorem statements, on the real reply, with nothing of electrumx or the model"""
+        res = r['result']
+        first, count, cp = r['first'], r['count'], r['cp']
+        chains = self.hist[r['h0']:]
+        seen = ' / '.join(','.join(x.decode() for x in S) for S in chains)
+        hdrs = res[1]
+        names = ','.join(x.decode() for x in hdrs) or '-'
+        if res[0] == 'P':
+            want_proof = cp != 0 and len(hdrs) != 0
+            if not any(list(S[first:first + count]) == hdrs for S in chains) or want_proof \
+                    or (r['kind'] == 'header' and len(hdrs) != 1):
+                self.violations.append((PLAIN_CLAUSE, f'{self._what(r)} answered headers {names} without proof'
+                                                      f'{" although headers were returned and cp_height != 0" if want_proof else ""}; '
+                                                      f'chains visible during the request: {seen}'))
+            return
+        _, hdrs, br, root = res
+        length = cp + 1
+        index = first + len(hdrs) - 1
+        ok_proof = [S for S in chains
+                    if length <= len(S) and 0 <= index < length and plain_branch_root(S[:length], index) == (br, root)]
+        if not ok_proof:
+            self.violations.append((UNSAFE_CLAUSE,
+                                    f'{self._what(r)} answered root {root.decode()} for height {index}; '
+                                    f'chains visible during the request: {seen}'))
+            return
+        folded = plain_fold(hdrs[-1], br, index) if hdrs else (None, None)
+        whole = [S for S in ok_proof if list(S[first:first + len(hdrs)]) == hdrs]
+        if not hdrs or folded != (root, 0) or not whole or (r['kind'] == 'header' and len(hdrs) != 1) \
+                or len(hdrs) > count:
+            S = ok_proof[0]
+            self.violations.append((REPLY_CLAUSE,
+                                    f'{self._what(r)} answered header(s) {names} with branch and root of the chain '
+                                    f'{",".join(x.decode() for x in S)} (its block at height {index} is '
+                                    f'{S[index].decode()}): the last header folds to '
+                                    f'{folded[0].decode() if folded[0] else None}, the root returned is {root.decode()}; '
+                                    f'chains visible during the request: {seen}'))
+
+    def _expect_refusal(self, r, got):
+        """the refusal clause at the delivery of a handler's header read: `got` headers came back and the
+        range check of `_merkle_proof` runs against the chain visible now"""
+        vis = len(self.hist[-1])
+        cp = r['cp']
+        if r['kind'] == 'header':
+            if got != 1:
+                return True
+            return cp != 0 and not (r['first'] <= cp < vis)
+        if got == 0 or cp == 0:
+            return False
+        return not (r['first'] + got - 1 <= cp < vis)
+
+    def _start(self, kind, first, count, cp):
+        if kind == 'header':
+            coro = self.ElectrumX.block_header(self.session, first, cp)
+        else:
+            coro = self.ElectrumX.block_headers(self.session, first, count, cp)
+        r = {'coro': coro, 'susp': None, 'result': None, 'kind': kind, 'first': first, 'count': count, 'cp': cp,
+             'h0': len(self.hist) - 1}
+        self.reqs.append(r)
+        self._advance(r)
+        return r
+
+    def _perform(self, r):
+        s = r['susp']
+        s.value = s.func(*s.args)          # the real `read_headers` closure, now
+        s.performed = True
+
+    def _deliver(self, r):
+        in_handler = self._phase(r) == 'H'
+        got = r['susp'].value[1]
+        self._advance(r)
+        if in_handler and self._expect_refusal(r, got) and r['result'] != ('R',):
+            self.violations.append((REFUSAL_CLAUSE,
+                                    f'{self._what(r)} with {len(self.hist[-1])} visible hashes and {got} header(s) '
+                                    f'read: {r["result"] or "accepted"}'))
+
+    @staticmethod
+    def _phase(r):
+        """where the suspended coroutine of request r waits: H (the handler's own header read), E
+        (_extend_to), V (_level_for), L (the leaf hashes of branch_and_root)"""
+        names = []
+        co = r['coro']
+        while co is not None and hasattr(co, 'cr_code'):
+            names.append(co.cr_code.co_name)
+            co = co.cr_await
+        if '_extend_to' in names:
+            return 'E'
+        if '_level_for' in names:
+            return 'V'
+        return 'L' if 'branch_and_root' in names else 'H'
 
     # -- events
     def ev(self, e, judge_cache=True):
         kind = e[0]
         mlines = [ev_line(e)]
-        if kind == 'ST':
-            cp, height = e[1], e[2]
-            r = {'coro': self.ElectrumX._merkle_proof(self.session, cp, height), 'susp': None, 'result': None,
-                 'cp': cp, 'height': height, 'h0': len(self.hist) - 1}
-            self.reqs.append(r)
-            outside = not (height <= cp < len(self.hist[-1]))
-            self._advance(r)
-            if outside and r['result'] != ('R',):
-                self.violations.append(('request outside the chain not refused',
-                                        f'block.header({height}, cp={cp}) with {len(self.hist[-1])} visible hashes: {r["result"] or "accepted"}'))
+        if kind == 'ST':                   # block_header, its header read performed and delivered at once
+            r = self._start('header', e[2], 1, e[1])
+            if r['susp'] is not None:
+                self._perform(r)
+                self._deliver(r)
+        elif kind == 'HD':
+            self._start('header', e[1], 1, e[2])
+        elif kind == 'HS':
+            self._start('headers', e[1], e[2], e[3])
         elif kind == 'PF':
             r = self.reqs[e[1]] if e[1] < len(self.reqs) else None
             if r and r['susp'] is not None and not r['susp'].performed:
-                s = r['susp']
-                s.value = s.func(*s.args)          # the real `read_headers` closure, now
-                s.performed = True
+                self._perform(r)
+                if self.solo[0] != e[1] or self.solo[2]:
+                    self.solo = [e[1], 0, True]
+                else:
+                    self.solo[2] = True
+            else:
+                self.solo = [None, 0, False]
         elif kind == 'DL':
             r = self.reqs[e[1]] if e[1] < len(self.reqs) else None
             if r and r['susp'] is not None and r['susp'].performed:
-                self._advance(r)
+                self._deliver(r)
+                if self.solo[0] == e[1] and self.solo[2] and self.pending is None:
+                    self.solo[1:] = [self.solo[1] + 1, False]
+                    if self.solo[1] == SOLO_ROUNDS and r['susp'] is not None:
+                        self.violations.append((PROGRESS_CLAUSE, f'{self._what(r)} is still waiting ({self._phase(r)}) '
+                                                                 f'after {SOLO_ROUNDS} uninterrupted read round trips'))
+                else:
+                    self.solo = [None, 0, False]
+            else:
+                self.solo = [None, 0, False]
         elif kind == 'BB':
             n = e[1]
             vis = len(self.hist[-1])
@@ -622,6 +777,8 @@ class Real:
                 db.state = st
         else:
             raise ValueError(e)
+        if kind not in ('PF', 'DL'):
+            self.solo = [None, 0, False]
         self.mlines.append(mlines)
         self.note_visible()
         if judge_cache:
@@ -657,12 +814,7 @@ class Real:
         parts = []
         for r in self.reqs:
             if r['susp'] is not None:
-                names = []
-                co = r['coro']
-                while co is not None and hasattr(co, 'cr_code'):
-                    names.append(co.cr_code.co_name)
-                    co = co.cr_await
-                kind = 'E' if '_extend_to' in names else 'V' if '_level_for' in names else 'L'
+                kind = self._phase(r)
                 f = r['susp'].func
                 fv = dict(zip(f.__code__.co_freevars, (c.cell_contents for c in f.__closure__)))
                 start, count = fv['start_height'], fv['count']
@@ -670,12 +822,15 @@ class Real:
                     d = '?'
                 else:
                     binary, got = r['susp'].value
-                    d = '!' if got != count else sl([binary[i * HDR:(i + 1) * HDR].rstrip(b'\0') for i in range(got)])
+                    d = '!' if got != count and kind != 'H' else \
+                        sl([binary[i * HDR:(i + 1) * HDR].rstrip(b'\0') for i in range(got)])
                 parts.append(f'{kind} {start},{count},{d}')
             else:
                 res = r['result']
                 if res[0] == 'A':
-                    parts.append(f'A {sl(res[1])} {res[2].decode()}')
+                    parts.append(f'A {sl(res[1])} {sl(res[2])} {res[3].decode()}')
+                elif res[0] == 'P':
+                    parts.append(f'P {sl(res[1])}')
                 elif res[0] == 'R':
                     parts.append('R')
                 else:
@@ -759,9 +914,12 @@ def derive_order():
 
 # ---- running one event sequence -----------------------------------------------------------------
 
+STARTS = ('ST', 'HD', 'HS')
+
+
 def ev_line(e):
     if e[0] == 'AP':
-        return 'AP ' + ','.join(x.decode() for x in e[1])
+        return 'AP ' + ','.join(x.decode('latin-1') for x in e[1])
     return ' '.join(str(x) for x in e)
 
 
@@ -887,7 +1045,41 @@ def report(res, src, dh, n, evs, viols, seen, tag=''):
 
 def corpus():
     S9 = src_names(9)
+    done = ['PF 0', 'DL 0'] * 18           # the request runs alone to its end (surplus events do nothing)
     return [
+        # F24: block.header(7, cp=8); the header read is performed (h7); a reorganisation replaces the blocks at
+        # heights 7 and 8 before its result is delivered; the proof is computed entirely from the new chain
+        {'name': 'F24', 'src': S9, 'dh': 1, 'n': 4,
+         'events': ['HD 7 8', 'PF 0', 'BB 7', 'BE', 'AP n0,n1', 'DL 0'] + done,
+         'shape': lambda lines: any(' | H 7,1,h7' in l and l.split(' | ')[1] != '0' and l.split(' | ')[2] == '9 -'
+                                    for l in lines)},
+        # F24 with the header delivered first: the reorganisation happens while the proof's first read is pending
+        # (the range check has passed against the old chain)
+        {'name': 'F24-delivered', 'src': S9, 'dh': 1, 'n': 4,
+         'events': ['HD 7 8', 'PF 0', 'DL 0', 'BB 7', 'BE', 'AP n0,n1'] + done,
+         'shape': lambda lines: any(' | E ' in l and l.split(' | ')[1] != '0' and l.split(' | ')[2] == '9 -'
+                                    for l in lines)},
+        # F24 for block.headers(5, 10, cp=8): four headers h5..h8 read (the count is clipped by the chain), the
+        # last two orphaned before the proof of the last one is computed
+        {'name': 'F24-headers', 'src': S9, 'dh': 1, 'n': 4,
+         'events': ['HS 5 10 8', 'PF 0', 'BB 7', 'BE', 'AP n0,n1', 'DL 0'] + done,
+         'shape': lambda lines: any(' | H 5,10,h5,h6,h7,h8' in l and l.split(' | ')[1] != '0'
+                                    and l.split(' | ')[2] == '9 -' for l in lines)},
+        # a reorganisation A -> B -> A between the header read and the proof: the reply (header and proof of A) is right
+        {'name': 'F24-ABA', 'src': S9, 'dh': 1, 'n': 4,
+         'events': ['HD 7 8', 'PF 0', 'BB 7', 'BE', 'AP n0,n1', 'BB 7', 'BE', 'AP h7,h8', 'DL 0'] + done,
+         'shape': lambda lines: any(' | H 7,1,h7' in l and l.split(' | ')[1] == '4' for l in lines)},
+        # A -> B while the proof is computed (it is B's; the current code notices that h7 does not fold and goes back
+        # to its header read), then B -> A before the header is read again: a handler that compared a second read of
+        # the header with the first instead of folding would now return A's header with B's proof
+        {'name': 'F24-ABA-late', 'src': S9, 'dh': 1, 'n': 4,
+         'events': ['HD 7 8', 'PF 0', 'DL 0', 'BB 7', 'BE', 'AP n0,n1'] + ['PF 0', 'DL 0'] * 4
+                   + ['BB 7', 'BE', 'AP h7,h8'] + done,
+         'shape': lambda lines: any(l.split(' | ')[1] == '4' and l.split(' | ')[2] == '9 -' for l in lines)},
+        # the back-out leaves the chain below the checkpoint: after the header read the range check must refuse
+        {'name': 'F24-refused', 'src': S9, 'dh': 1, 'n': 4,
+         'events': ['HD 6 8', 'PF 0', 'BB 7', 'BE', 'DL 0', 'HS 5 10 8', 'PF 1', 'DL 1'],
+         'shape': lambda lines: lines[-1].endswith('| R ; R')},
         # F7: an extension read performed before a back-out and delivered after it (and after regrowth)
         {'name': 'F7', 'src': S9, 'dh': 0, 'n': 3,
          'events': ['ST 8 0', 'PF 0', 'BB 7', 'BE', 'AP n0,n1', 'DL 0', 'PF 0', 'DL 0', 'PF 0', 'DL 0', 'PF 0', 'DL 0',
@@ -952,6 +1144,11 @@ def scopes(tier):
         # two requests against one back-out (+ regrowth)
         ('two-req-reorg', 9, 1, 4, [(8, 0), (6, 1)], [5], [4], (8 if q else 9, 2, 1, 1)),
         ('window', 7, 0, 3, [(6, 0), (4, 1)], [4], [3], (7 if q else 9, 2, 1, 1)),
+        # the whole handler against a reorganisation at / above / below its height (F24), header read cut
+        ('hdr-split', 9, 1, 4, [('HD', 7, 8), ('HD', 3, 8)], [7], [2], (11 if q else 14, 1, 1, 1)),
+        ('hdr-split-cached', 7, 0, 7, [('HD', 5, 6), ('HS', 4, 3, 6)], [5, 6], [2], (9 if q else 12, 1, 1, 1)),
+        ('hdrs-split', 9, 1, 4, [('HS', 5, 10, 8), ('HS', 6, 2, 8)], [7], [2], (10 if q else 13, 1, 1, 1)),
+        ('hdr-two', 7, 1, 7, [('HD', 5, 6), ('HS', 4, 3, 6), ('HD', 6, 0)], [5], [2], (6 if q else 10, 2, 1, 1)),
     ] + ([] if q else [
         ('two-backouts', 9, 1, 9, [(8, 0)], [4, 6], [3], (10, 1, 2, 2)),
         ('two-req-two-ext-reorg', 9, 1, 4, [(8, 0), (5, 0)], [6], [3], (9, 2, 1, 1)),
@@ -970,7 +1167,7 @@ def enumerate_scope(res, batch, scope, seen_clauses, budget):
             continue
         cand = [('PF', i) for i in pf] + [('DL', i) for i in dl]
         if nreq < maxreq:
-            cand += [('ST', cp, h) for cp, h in starts]
+            cand += [x if isinstance(x[0], str) else ('ST',) + x for x in starts]
         if pending is None:
             if nbo < maxbo:
                 cand += [('BB', b) for b in bos if 0 < b < vis]
@@ -983,7 +1180,7 @@ def enumerate_scope(res, batch, scope, seen_clauses, budget):
             shown, viols, en, ml = run_real(src, dh, n, seq, every=False)
             nodes += 1
             batch.add((src, dh, n, seq), True, shown, ml)
-            nontrivial = sum(1 for x in seq if x[0] == 'ST') >= 2 or any(x[0] == 'BB' for x in seq)
+            nontrivial = sum(1 for x in seq if x[0] in STARTS) >= 2 or any(x[0] == 'BB' for x in seq)
             res.note_case(f'{name}|' + ';'.join(ev_line(x) for x in seq), nontrivial=nontrivial)
             if viols:
                 report(res, src, dh, n, seq, viols, seen_clauses)
@@ -1007,18 +1204,21 @@ def random_schedule(rng, res):
     src = src_names(slen)
     real = Real(src, dh, n)
     evs, viols, shown = [], [], []
-    shape = rng.choice(['two-ext', 'cross-segment', 'regrow', 'window', 'mixed', 'mixed'])
+    shape = rng.choice(['two-ext', 'cross-segment', 'regrow', 'window', 'mixed', 'split', 'split'])
     fresh = 0
+    orphaned = []                 # the hashes removed by the last back-out
     steps = rng.randrange(8, 40)
     try:
         for _ in range(steps):
             pf, dl = real.enabled()
             vis = len(real.hist[-1])
             w = []
+            # shape 'split': once a reorganisation has happened, let the requests that saw the old chain finish
+            go = 9 if shape == 'split' and real.cache.truncations and real.pending is None else 3
             for i in pf:
-                w.append((3, ('PF', i)))
+                w.append((go, ('PF', i)))
             for i in dl:
-                w.append((3, ('DL', i)))
+                w.append((go, ('DL', i)))
             active = len(pf) + len(dl)
             if len(real.reqs) < 6:
                 st_w = 2 if active < 2 else 1
@@ -1034,7 +1234,17 @@ def random_schedule(rng, res):
                 else:
                     cp = rng.randrange(0, vis)
                 height = rng.randrange(0, cp + 2) if rng.random() < 0.1 else rng.randrange(0, cp + 1)
-                w.append((st_w, ('ST', cp, height)))
+                if shape == 'split' and vis > 1 and rng.random() < 0.7:
+                    height = rng.randrange(max(0, vis - 4), vis)   # near the tip: what a reorganisation replaces
+                    cp = max(cp, height) if rng.random() < 0.9 else cp
+                u = rng.random()
+                if u < (0.15 if shape == 'split' else 0.6):
+                    w.append((st_w, ('ST', cp, height)))
+                elif u < (0.7 if shape == 'split' else 0.85):
+                    w.append((st_w, ('HD', height, cp)))           # the header read is a step of its own
+                else:
+                    k = rng.randrange(0, 4)
+                    w.append((st_w, ('HS', max(0, height - k), rng.choice([k + 1, k + 1, k + 3, 0]), cp)))
             if real.pending is None:
                 if vis > 1:
                     seg = 1 << dh
@@ -1042,12 +1252,21 @@ def random_schedule(rng, res):
                         b = max(1, (rng.randrange(1, vis) // seg) * seg - rng.choice([0, 0, 1]))
                     else:
                         b = rng.randrange(1, vis)
-                    w.append((2 if active else 1, ('BB', b)))
+                    bw = 2 if active else 1
+                    if shape == 'split':
+                        b = max(1, vis - rng.choice([1, 1, 2, 3]))
+                        inhand = [r['first'] + r['count'] - 1 for r in real.reqs
+                                  if r['susp'] is not None and (r['susp'].performed or real._phase(r) != 'H')]
+                        if inhand and not real.cache.truncations:
+                            b, bw = max(1, min(b, min(inhand))), 9     # orphan a header that a request holds
+                    w.append((bw, ('BB', b)))
                 k = rng.randrange(1, 6)
                 ap_w = 1
-                if shape in ('regrow', 'cross-segment') and any(x[0] == 'BE' for x in evs[-2:]):
+                if shape in ('regrow', 'cross-segment', 'split') and any(x[0] == 'BE' for x in evs[-2:]):
                     ap_w, k = 12, rng.randrange(2, 8)
                 names = [f'n{fresh + j}'.encode() for j in range(k)]
+                if orphaned and rng.random() < (0.35 if shape == 'split' else 0.1):
+                    names = list(orphaned)                         # back to the chain before the last back-out
                 w.append((ap_w, ('AP', names)))
             else:
                 w.append((2 if shape == 'window' else 4, ('BE',)))
@@ -1059,6 +1278,9 @@ def random_schedule(rng, res):
                 pick -= x
             if e[0] == 'AP':
                 fresh += len(e[1])
+                orphaned = []          # restored once at most, and only right after the back-out (names stay unique)
+            elif e[0] == 'BB':
+                orphaned = list(real.hist[-1][e[1]:])
             evs.append(e)
             real.ev(e)
             shown.append(real.show())
@@ -1067,6 +1289,27 @@ def random_schedule(rng, res):
                 viols.append((len(evs) - 1, c, d))
             if viols:
                 break
+        if not viols and real.pending is None and (shape == 'split' or rng.random() < 0.1):
+            # every request still active runs alone to its end (progress clause)
+            for _ in range(3 * SOLO_ROUNDS * 2):
+                pf, dl = real.enabled()
+                cur = real.solo[0]
+                if cur is not None and cur in pf + dl and real.solo[1] < SOLO_ROUNDS:
+                    e = ('PF', cur) if cur in pf else ('DL', cur)
+                else:
+                    nxt = [i for i in pf + dl if i != cur or real.solo[1] < SOLO_ROUNDS]
+                    if not nxt:
+                        break
+                    i = min(nxt)
+                    e = ('PF', i) if i in pf else ('DL', i)
+                evs.append(e)
+                real.ev(e)
+                shown.append(real.show())
+                while real.violations:
+                    c, d = real.violations.pop(0)
+                    viols.append((len(evs) - 1, c, d))
+                if viols:
+                    break
     finally:
         real.close()
     return src, dh, n, evs, viols, shape, shown, real.mlines
@@ -1077,8 +1320,26 @@ def shape_stats(res, lines, evs):
     two_ext = any(l.split(' | ')[3].count('E ') >= 2 for l in lines)
     window_start = False
     for e, prev in zip(evs[1:], lines[:-1]):
-        if e[0] == 'ST' and prev.split(' | ')[2].split()[1] != '-':
+        if e[0] in STARTS and prev.split(' | ')[2].split()[1] != '-':
             window_start = True
+    # a header read in hand (performed or delivered) across a back-out: the F24 shape
+    held = False
+    for i, e in enumerate(evs):
+        if e[0] == 'BB' and i and any(p.startswith('H ') and not p.endswith('?') for p in
+                                      lines[i - 1].split(' | ')[3].split(' ; ')):
+            held = True
+    if held:
+        res.bump('schedules with a header read in hand across a back-out')
+    # a handler back at its header read after it had been in the proof: its consistency check failed
+    proving, reread = set(), False
+    for l in lines:
+        for i, p in enumerate(l.split(' | ')[3].split(' ; ')):
+            if p[:2] in ('E ', 'L ', 'V '):
+                proving.add(i)
+            elif p.startswith('H ') and i in proving:
+                reread = True
+    if reread:
+        res.bump('schedules in which a handler read its header(s) again (consistency check of the reply failed)')
     if two_ext:
         res.bump('schedules with two extensions in flight')
     if window_start:
@@ -1092,7 +1353,7 @@ def shape_stats(res, lines, evs):
         if before is not None and after_i is not None and int(lines[after_i].split()[0]) < before:
             res.bump('schedules whose back-out truncated the cache')
             break
-    return two_ext, window_start
+    return two_ext, window_start, held
 
 
 # ---- preemption probe (finding N7) --------------------------------------------------------------
@@ -1298,7 +1559,8 @@ def preemption_probe(res, placement):
 
 def run(tier, seed):
     res = SuiteResult('headercache')
-    res.rule = ('case = (visible hashes, depth_higher, initial cache length, event sequence over request start / '
+    res.rule = ('case = (visible hashes, depth_higher, initial cache length, event sequence over request start '
+                '(block.header / block.headers handler; ST = block.header with its header read done at once) / '
                 'worker read performed / read delivered / back-out begin / back-out end / append); every sequence '
                 'of every scope up to its length bound (replayed from scratch on fresh real objects), the corpus, and '
                 'seeded random schedules of 8..40 events; non-trivial = two or more requests, or a back-out.  '
@@ -1314,7 +1576,7 @@ def run(tier, seed):
             res.disagreements.append({'suite': 'headercache', 'where': 'effects of a back-out',
                                       'code': pl['text'], 'model': 'per block: DB.state lowered by one and '
                                       'header_mc.truncate(new height + 1), once each'})
-        flags = '11' + ('1' if order == 'lower-first' else '0')
+        flags = '11' + ('1' if order == 'lower-first' else '0') + '1'     # extFix, retry, lowerFirst, hdrCheck
         if os.environ.get('HC_VARIANT'):           # development aid: compare with another model variant
             flags = os.environ['HC_VARIANT']
         batch = Batch(flags)
@@ -1335,19 +1597,21 @@ def run(tier, seed):
         # 2. seeded random schedules
         nrand = 2500 if tier == 'quick' else 60000
         rng = rng_for(seed, 'headercache', tier)
-        two = win = 0
+        two = win = held = 0
         for k in range(nrand):
             src, dh, n, evs, viols2, shape, shown, ml = random_schedule(rng, res)
             batch.add((src, dh, n, evs), False, shown, ml)
             res.bump(f'random shape {shape}')
-            t, w = shape_stats(res, shown, evs)
+            t, w, hd = shape_stats(res, shown, evs)
             two += t
             win += w
+            held += hd
             res.note_case(f'rand|{dh}|{n}|{len(src)}|' + ';'.join(ev_line(e) for e in evs), nontrivial=True)
             if viols2 and len(res.violations) < 3:
                 report(res, src, dh, n, evs, viols2, seen_clauses)
-        if two < nrand // 50 or win < nrand // 50:
-            res.harness_errors.append(f'random schedules miss their shapes: two-ext {two}, window-start {win} of {nrand}')
+        if two < nrand // 50 or win < nrand // 50 or held < nrand // 50:
+            res.harness_errors.append(f'random schedules miss their shapes: two-ext {two}, window-start {win}, '
+                                      f'header read held across a back-out {held} of {nrand}')
         # 3. exhaustive scopes
         budget = 60000 if tier == 'quick' else 1500000
         for scope in scopes(tier):
